@@ -74,6 +74,15 @@ pub fn part_for(prop: &str) -> E3Part {
             thorough_factor: 20,
             rule: "E3: delete_orphans / quarantine_orphans / delete_orphan(h) on planted orphan blobs racing puts of the orphaned content and removes, under generated schedules; at every step and at the end every visible key resolves to an intact blob (a blob re-committed by a racing put survives clean-up), referenced blobs are all present at the end and no non-planted unreferenced file remains; non-trivial = a context switch between the clean-up's re-validation and its unlink/rename, or an unlink inside a commit window; distinct by (program, executed schedule)",
         },
+        "C12" => E3Part {
+            name: "sched-stats-end",
+            bias: E3Bias { checkpoint: 6, put: 9, remove: 4, rr: 2, reads: 1, ..base },
+            lenses: SLenses { stats_end: true, ..Default::default() },
+            nontrivial: |f| f.contains("context_switch"),
+            quick_cases: 150,
+            thorough_factor: 20,
+            rule: "E3: generated concurrent programs with many explicit checkpoints racing puts (shared contents), removes and range removals under generated and enumerated schedules; after every thread finished: known_blobs() equals the reference counts implied by the final index, stats().cas.unique_blobs / total_bytes equal the number / summed length of the distinct referenced contents (guard statistics and Cas::stats()), and every key's recorded size equals the length of its blob file; non-trivial = schedule with a context switch; distinct by (program, executed schedule)",
+        },
         "C13" => E3Part {
             name: "sched-abort",
             bias: E3Bias { abort: 7, put: 7, reads: 3, remove: 2, rr: 0, checkpoint: 0, ..base },
